@@ -86,6 +86,14 @@ pub(crate) fn apply_table_keyed_patch<D: SharedBrotliDecoder>(
 
     copy_unprocessed_tables(font, processed_tables, &mut font_builder);
 
+    // The table directory of a font stores the table count in 16 bits (the font builder
+    // asserts this). A patch may add up to 65535 new tables on top of the existing ones.
+    if font_builder.ordered_tags().len() > u16::MAX as usize {
+        return Err(PatchingError::InvalidPatch(
+            "Patched font would have more than 65535 tables.",
+        ));
+    }
+
     Ok(font_builder.build())
 }
 
@@ -440,6 +448,48 @@ mod tests {
         assert_eq!(
             Err(PatchingError::InvalidPatch("Max size exceeded.")),
             apply_table_keyed_patch(&patch, &font, &BuiltInBrotliDecoder)
+        );
+    }
+
+    #[test]
+    fn table_keyed_patch_too_many_tables() {
+        // 65535 replacement patches with distinct tags on top of the five tables of the
+        // test font: the result does not fit a table directory and must be an error.
+        use shared_brotli_patch_decoder::NoopBrotliDecoder;
+        let count = u16::MAX as usize;
+        let mut patch_data: Vec<u8> = b"iftk".to_vec();
+        patch_data.extend_from_slice(&0u32.to_be_bytes());
+        for word in [1u32, 2, 3, 4] {
+            patch_data.extend_from_slice(&word.to_be_bytes());
+        }
+        patch_data.extend_from_slice(&(count as u16).to_be_bytes());
+        // each entry: tag + flags + max uncompressed length + one byte of (uncompressed) data
+        const ENTRY_LEN: usize = 4 + 1 + 4 + 1;
+        let first = patch_data.len() + 4 * (count + 1);
+        for i in 0..=count {
+            patch_data.extend_from_slice(&((first + ENTRY_LEN * i) as u32).to_be_bytes());
+        }
+        for i in 0..count {
+            let tag = [
+                b'A' + (i % 26) as u8,
+                b'a' + (i / 26 % 26) as u8,
+                b'0' + (i / 676 % 10) as u8,
+                b'0' + (i / 6760 % 10) as u8,
+            ];
+            patch_data.extend_from_slice(&tag);
+            patch_data.push(1); // REPLACE_TABLE
+            patch_data.extend_from_slice(&1u32.to_be_bytes());
+            patch_data.push(b'x');
+        }
+
+        let patch = TableKeyedPatch::read(FontData::new(&patch_data)).unwrap();
+        let font = test_font();
+        let font = FontRef::new(font.as_slice()).unwrap();
+        assert_eq!(
+            Err(PatchingError::InvalidPatch(
+                "Patched font would have more than 65535 tables."
+            )),
+            apply_table_keyed_patch(&patch, &font, &NoopBrotliDecoder)
         );
     }
 }
